@@ -15,13 +15,35 @@ type Unit struct {
 	Pkg  *Pkg
 	Fn   *ssa.Function
 	FC   *FuncContract
-	Kind string // func | lemma
+	Kind string // func | lemma | refine
+	// Kind refine: FC is the contract of an INTERFACE method, Impl the contract of a concrete method
+	// implementing it (Fn is the concrete method). The unit checks that Impl refines FC: under FC's
+	// precondition Impl's precondition holds, and a call described by Impl's contract establishes FC's
+	// postconditions and stays within FC's frame - so that call sites, which only know FC, are right
+	// whenever the dynamic receiver is this implementation.
+	Impl *FuncContract
 }
 
 func (w *World) findUnit(pkgName, key string) (*Unit, error) {
 	p := w.pkgByName(pkgName)
 	if p == nil {
 		return nil, fmt.Errorf("unknown package %s", pkgName)
+	}
+	if i := strings.Index(key, " refines "); i > 0 {
+		implKey, ifaceKey := strings.TrimSpace(key[:i]), strings.TrimSpace(key[i+9:])
+		fn := p.funcByKey[implKey]
+		mc := p.Contracts.Funcs[implKey]
+		if fn == nil || mc == nil {
+			return nil, fmt.Errorf("refinement unit: %s has no contract in package %s", implKey, pkgName)
+		}
+		ic := w.Contract[fullKey(p.Path, ifaceKey)]
+		if ic == nil {
+			ic = w.Contract[ifaceKey]
+		}
+		if ic == nil {
+			return nil, fmt.Errorf("refinement unit: no contract for interface method %s", ifaceKey)
+		}
+		return &Unit{Name: pkgName + ":" + key, Pkg: p, Fn: fn, FC: ic, Impl: mc, Kind: "refine"}, nil
 	}
 	fn := p.funcByKey[key]
 	if fn == nil {
@@ -67,7 +89,15 @@ func (w *World) verifyUnit(u *Unit) *Exec {
 			}
 		}
 		fr.regs[p] = v
+		if u.Kind == "refine" && i == 0 {
+			// the interface contract speaks about the receiver as an interface value
+			fr.params[name] = Val{T: e.makeIface(st, v), Typ: e.refineRecvType(u)}
+			continue
+		}
 		fr.params[name] = v
+	}
+	if u.Kind == "refine" {
+		fr.fc = u.FC
 	}
 	// closures verified on their own: every captured variable is an arbitrary cell
 	for _, fv := range fn.FreeVars {
@@ -151,7 +181,37 @@ func (w *World) verifyUnit(u *Unit) *Exec {
 		}
 	}
 	e.sc.cover("true", u.Name+"#cover.pre", "precondition is satisfiable")
-	out, res := e.runBody(fr, st)
+	var out *State
+	var res []Val
+	if u.Kind == "refine" {
+		// the "body" is one call described by the implementation's contract
+		var args []Val
+		for _, p := range fn.Params {
+			args = append(args, fr.regs[p])
+		}
+		if len(u.Impl.RepInvs) > 0 {
+			iv := map[string]Val{}
+			for i, n := range u.Impl.PNames {
+				if i < len(args) {
+					iv[n] = args[i]
+				}
+			}
+			ienv := &SpecEnv{e: e, fr: fr, st: st, old: st, vars: iv, oldVars: iv}
+			for _, c := range u.Impl.RepInvs {
+				e.sc.assume("true", e.specBoolA(ienv, c))
+				e.sc.used[fmt.Sprintf("representation invariant of %s assumed when it is entered through the interface: %s", u.Impl.Key, c.Text)] = true
+			}
+		}
+		r := e.applyContract(fr, st, u.Impl, args, fn.Signature, fn.Pos())
+		if r.Tuple != nil {
+			res = r.Tuple
+		} else if fn.Signature.Results().Len() == 1 {
+			res = []Val{r}
+		}
+		out = st
+	} else {
+		out, res = e.runBody(fr, st)
+	}
 	if out == nil {
 		if u.Kind != "lemma" {
 			e.sc.uncontracted["function never returns normally (no postcondition checked)"] = true
@@ -318,4 +378,12 @@ func (e *Exec) existedAtEntry(q, a0 string) string {
 	// owner is given by root()
 	e.sc.axiom("root_pos", "(forall ((r Int)) (! (=> (>= r 0) (= (root r) r)) :pattern ((root r))))")
 	return fmt.Sprintf("(<= (root %s) %s)", q, a0)
+}
+
+// refineRecvType: the interface type the refined contract's receiver has.
+func (e *Exec) refineRecvType(u *Unit) types.Type {
+	if u.FC != nil && u.FC.fnRecvT != nil {
+		return u.FC.fnRecvT
+	}
+	return types.NewInterfaceType(nil, nil)
 }
